@@ -294,3 +294,218 @@ theorem filterValue_bound {env : Env} (he : EnvOk env) {r : RuleData} {f opc : N
     exact ⟨parseNum_lt hw, by simp⟩
 
 end LA.Rule
+
+namespace LA.Rule
+open LA
+
+structure WordsInv (r : RuleData) : Prop where
+  flags : r.flags < 4294967296
+  action : r.action < 4294967296
+  trips : ∀ t ∈ r.trips, t.1 < 4294967296 ∧ t.2.1 < 4294967296 ∧ t.2.2 < 4294967296
+  syscalls : ∀ w ∈ r.syscalls, w < 2048
+  strCount : r.strings.length ≤ r.trips.length
+  strLen : ∀ s ∈ r.strings, s.length ≤ 4096
+
+theorem field_code_lt {lhs : Bytes} {f : Nat} (h : lookupB LA.Gen.RuleTables.fieldsTable lhs = some f) : f < 4294967296 := by
+  have cert : LA.Gen.RuleTables.fieldsTable.all (fun p => decide (p.2 < 4294967296)) = true := by decide +kernel
+  obtain ⟨p, hp1, hp2⟩ := lookupB_mem h
+  have := List.all_eq_true.mp cert p hp1
+  rw [← hp2]; simpa using this
+
+theorem op_code_lt {op : Bytes} {c : Nat} (h : lookupB LA.Gen.RuleTables.operatorsTable op = some c) : c < 4294967296 := by
+  have cert : LA.Gen.RuleTables.operatorsTable.all (fun p => decide (p.2 < 4294967296)) = true := by decide +kernel
+  obtain ⟨p, hp1, hp2⟩ := lookupB_mem h
+  have := List.all_eq_true.mp cert p hp1
+  rw [← hp2]; simpa using this
+
+theorem inv_addFilter {env : Env} (he : EnvOk env) {r r' : RuleData} {l o v : Bytes} (hi : WordsInv r)
+    (h : addFilter env r l o v = some r') : WordsInv r' ∧ r'.flags = r.flags ∧ r'.action = r.action := by
+  unfold addFilter at h
+  split at h
+  · rename_i opc f hop hf
+    split at h
+    · simp at h
+    · cases hv : filterValue env r f opc v with
+      | none => rw [hv] at h; simp at h
+      | some x =>
+        obtain ⟨val, s, a⟩ := x
+        rw [hv] at h
+        simp only [Option.map_some, Option.some.injEq] at h
+        subst h
+        obtain ⟨hb1, hb2⟩ := filterValue_bound he hv
+        refine ⟨⟨hi.flags, hi.action, ?_, hi.syscalls, ?_, ?_⟩, rfl, rfl⟩
+        · intro t ht
+          simp only [List.mem_append, List.mem_cons, List.mem_nil_iff, or_false] at ht
+          rcases ht with ht | rfl
+          · exact hi.trips t ht
+          · exact ⟨field_code_lt hf, hb1, op_code_lt hop⟩
+        · cases s with
+          | none => simp only [List.length_append, List.length_cons, List.length_nil]; have := hi.strCount; omega
+          | some str => simp only [List.length_append, List.length_cons, List.length_nil]; have := hi.strCount; omega
+        · cases s with
+          | none => exact hi.strLen
+          | some str =>
+            intro x hx
+            simp only [List.mem_append, List.mem_cons, List.mem_nil_iff, or_false] at hx
+            rcases hx with hx | rfl
+            · exact hi.strLen x hx
+            · exact hb2 x rfl
+  · simp at h
+
+theorem inv_addInterField {r r' : RuleData} {l o v : Bytes} (hi : WordsInv r)
+    (h : addInterField r l o v = some r') : WordsInv r' ∧ r'.flags = r.flags ∧ r'.action = r.action := by
+  have certc : LA.Gen.RuleTables.comparisonsTable.all (fun e => decide (e.2.2 < 4294967296)) = true := by decide +kernel
+  have fc : LA.Gen.RuleTables.fieldCompare < 4294967296 := by decide
+  unfold addInterField at h
+  cases hop : lookupB LA.Gen.RuleTables.operatorsTable o with
+  | none => rw [hop] at h; simp at h
+  | some opc =>
+    rw [hop] at h
+    simp only at h
+    split at h
+    · simp at h
+    · split at h
+      · rename_i lf rf _ _
+        split at h
+        · simp at h
+        · cases hc : lookupComparison lf rf with
+          | none => rw [hc] at h; simp at h
+          | some c =>
+            rw [hc] at h
+            simp only [Option.some.injEq] at h
+            subst h
+            have hcl : c < 4294967296 := by
+              unfold lookupComparison at hc
+              cases hf : LA.Gen.RuleTables.comparisonsTable.find? (fun e => e.1 == lf && e.2.1 == rf) with
+              | none => rw [hf] at hc; simp at hc
+              | some e =>
+                rw [hf] at hc
+                simp only [Option.map_some, Option.some.injEq] at hc
+                subst hc
+                have := List.all_eq_true.mp certc e (List.mem_of_find?_eq_some hf)
+                simpa using this
+            refine ⟨⟨hi.flags, hi.action, ?_, hi.syscalls, ?_, hi.strLen⟩, rfl, rfl⟩
+            · intro t ht
+              simp only [List.mem_append, List.mem_cons, List.mem_nil_iff, or_false] at ht
+              rcases ht with ht | rfl
+              · exact hi.trips t ht
+              · exact ⟨fc, hcl, op_code_lt hop⟩
+            · simp only [List.length_append, List.length_cons, List.length_nil]; have := hi.strCount; omega
+      · simp at h
+
+theorem inv_addSyscall {r r' : RuleData} {sc : Bytes} (hi : WordsInv r) (h : addSyscall r sc = some r') :
+    WordsInv r' ∧ r'.flags = r.flags ∧ r'.action = r.action := by
+  have bm : LA.Gen.RuleTables.syscallBitmaskSize * 32 = 2048 := by decide
+  unfold addSyscall at h
+  split at h
+  · simp only [Option.some.injEq] at h; subst h
+    exact ⟨⟨hi.flags, hi.action, hi.trips, hi.syscalls, hi.strCount, hi.strLen⟩, rfl, rfl⟩
+  · simp only at h
+    split at h
+    · simp at h
+    · rename_i n _
+      split at h
+      · simp at h
+      · rename_i hr
+        simp only [Option.some.injEq] at h; subst h
+        refine ⟨⟨hi.flags, hi.action, hi.trips, ?_, hi.strCount, hi.strLen⟩, rfl, rfl⟩
+        intro w hw
+        simp only [List.mem_append, List.mem_cons, List.mem_nil_iff, or_false] at hw
+        rcases hw with hw | rfl
+        · exact hi.syscalls w hw
+        · rw [bm] at hr; omega
+
+theorem inv_addKeys {env : Env} (he : EnvOk env) {r r' : RuleData} {keys : List Bytes} (hi : WordsInv r)
+    (h : addKeys env r keys = some r') : WordsInv r' := by
+  unfold addKeys at h
+  split at h
+  · simp only [Option.some.injEq] at h; subst h; exact hi
+  · exact (inv_addFilter he hi h).1
+
+/-- every rule data that Build accumulates has all its 32-bit quantities within a word, syscall
+numbers below 2048, at most one string per field and strings of at most PATH_MAX bytes. -/
+theorem inv_ruleDataOf {env : Env} (he : EnvOk env) {rule : Rule} {r : RuleData} (h : ruleDataOf env rule = some r) :
+    WordsInv r := by
+  have ef : LA.Gen.RuleTables.exitFilter < 4294967296 := by decide
+  have aa : LA.Gen.RuleTables.alwaysAction < 4294967296 := by decide
+  cases rule with
+  | deleteAll ks => simp [ruleDataOf] at h
+  | watch path perms keys =>
+    simp only [ruleDataOf, addFileWatch] at h
+    split at h
+    · simp at h
+    · have h0 : WordsInv { flags := LA.Gen.RuleTables.exitFilter, action := LA.Gen.RuleTables.alwaysAction, allSyscalls := true } :=
+        ⟨ef, aa, by simp, by simp, by simp, by simp⟩
+      obtain ⟨r1, h1, h⟩ := Option.bind_eq_some_iff.mp h
+      obtain ⟨r2, h2, h⟩ := Option.bind_eq_some_iff.mp h
+      have i1 := (inv_addFilter he h0 h1).1
+      exact inv_addKeys he (inv_addFilter he i1 h2).1 h
+  | syscall t list action filters syscalls keys =>
+    simp only [ruleDataOf] at h
+    split at h
+    · rename_i fl ac hfl hac
+      have hfl' : fl < 4294967296 := by
+        unfold setList at hfl
+        split at hfl
+        · simp at hfl; subst hfl; decide
+        · split at hfl
+          · simp at hfl; subst hfl; decide
+          · split at hfl
+            · simp at hfl; subst hfl; decide
+            · split at hfl
+              · simp at hfl; subst hfl; decide
+              · simp at hfl
+      have hac' : ac < 4294967296 := by
+        unfold setAction at hac
+        split at hac
+        · simp at hac; subst hac; decide
+        · split at hac
+          · simp at hac; subst hac; decide
+          · simp at hac
+      have h0 : WordsInv { flags := fl, action := ac, allSyscalls := true } := ⟨hfl', hac', by simp, by simp, by simp, by simp⟩
+      -- the two folds preserve the invariant
+      have foldF : ∀ (fs : List FilterSpec) (acc : Option RuleData), (∀ x, acc = some x → WordsInv x) →
+          ∀ x, fs.foldl (fun (acc : Option RuleData) f =>
+            acc.bind fun r =>
+              if (f.typ == 2) = true then addFilter env r f.lhs f.op f.rhs
+              else if (f.typ == 1) = true then addInterField r f.lhs f.op f.rhs
+              else some r) acc = some x → WordsInv x := by
+        intro fs
+        induction fs with
+        | nil => intro acc ha x hx; exact ha x hx
+        | cons f fs ih =>
+          intro acc ha x hx
+          simp only [List.foldl_cons] at hx
+          refine ih _ ?_ x hx
+          intro y hy
+          cases acc with
+          | none => simp at hy
+          | some r0 =>
+            simp only [Option.bind_some] at hy
+            have hr0 := ha r0 rfl
+            split at hy
+            · exact (inv_addFilter he hr0 hy).1
+            · split at hy
+              · exact (inv_addInterField hr0 hy).1
+              · simp only [Option.some.injEq] at hy; subst hy; exact hr0
+      have foldS : ∀ (ss : List Bytes) (acc : Option RuleData), (∀ x, acc = some x → WordsInv x) →
+          ∀ x, ss.foldl (fun (acc : Option RuleData) s => acc.bind fun r => addSyscall r s) acc = some x → WordsInv x := by
+        intro ss
+        induction ss with
+        | nil => intro acc ha x hx; exact ha x hx
+        | cons s ss ih =>
+          intro acc ha x hx
+          simp only [List.foldl_cons] at hx
+          refine ih _ ?_ x hx
+          intro y hy
+          cases acc with
+          | none => simp at hy
+          | some r0 =>
+            simp only [Option.bind_some] at hy
+            exact (inv_addSyscall (ha r0 rfl) hy).1
+      obtain ⟨r2, hr2, h⟩ := Option.bind_eq_some_iff.mp h
+      have i2 : WordsInv r2 := foldS syscalls _ (fun x hx => foldF filters _ (fun y hy => by simp only [Option.some.injEq] at hy; subst hy; exact h0) x hx) r2 hr2
+      exact inv_addKeys he i2 h
+    · simp at h
+
+end LA.Rule
